@@ -7,10 +7,13 @@ BAG = {
     "rpc": '<<"join","reg","reg","unreg","call","call","call","cancel","yield","yield","inverr","leave","adv">>',
     "cancel": '<<"join","reg","call","call","call","cancel","cancel","cancel","yield","inverr","leave","adv","adv","adv">>',
     "mixed": '<<"join","sub","unsub","pub","reg","unreg","call","cancel","yield","inverr","leave","adv">>',
+    "meta": '<<"join","sub","sub","unsub","reg","reg","unreg","msess","msess","mreg","mreg","msub","msub","leave">>',
+    "kill": '<<"join","join","sub","sub","reg","call","tst","tst","kill","kill","msess","leave","pub">>',
+    "hist": '<<"join","sub","unsub","pub","pub","pub","pub","hist","hist","hist","adv","leave">>',
     "churn": '<<"join","join","sub","pub","reg","call","call","cancel","yield","leave","leave","leave","adv">>',
 }
 
-ALL_CLASSES = ["sess", "pubsub", "details", "meta", "rpcreply", "rpcroute", "rpcintr", "snap"]
+ALL_CLASSES = ["sess", "pubsub", "details", "meta", "metaapi", "rpcreply", "rpcroute", "rpcintr", "snap"]
 
 MC_PUBSUB = ["TablesOK", "C01_Delivery", "C01_NoEventsOtherwise", "C01_StableIds", "C01_ViewAgrees"]
 MC_RPC_KINDS = ["join", "reg", "unreg", "call", "cancel", "yield", "inverr", "leave", "adv"]
@@ -38,9 +41,22 @@ PROPS = {
                 mc=dict(kinds=["join", "sub", "pub", "reg", "call", "cancel", "yield", "leave", "adv"],
                         inv=["TablesOK", "C05_NoTrace", "C05_IdleEmpty"],
                         quick=dict(steps=5, nsess=2), thorough=dict(steps=6, nsess=3)),
-                gen=[dict(bag="churn", depth=18, quick=160, thorough=2500),
-                     dict(bag="mixed", depth=20, quick=80, thorough=1500)],
-                classes=["sess", "pubsub", "rpcreply", "rpcroute", "rpcintr", "snap"]),
+                gen=[dict(bag="churn", depth=18, quick=120, thorough=2500),
+                     dict(bag="mixed", depth=20, quick=60, thorough=1500),
+                     dict(bag="kill", depth=18, quick=60, thorough=1500)],
+                classes=["sess", "pubsub", "meta", "rpcreply", "rpcroute", "rpcintr", "snap"]),
+    "C18": dict(family="core",
+                mc=dict(kinds=["join", "wsub", "sub", "reg", "kill", "tst", "leave"],
+                        inv=["TablesOK", "C18_ObserverView", "C18_Kill", "C18_Testaments", "C05_NoTrace"],
+                        quick=dict(steps=5, nsess=2), thorough=dict(steps=6, nsess=3)),
+                gen=[dict(bag="meta", depth=18, quick=160, thorough=2500),
+                     dict(bag="kill", depth=18, quick=100, thorough=2000)],
+                classes=["sess", "meta", "metaapi", "rpcreply"]),
+    "C20": dict(family="core",
+                mc=dict(kinds=["join", "sub", "unsub", "pub", "leave"], inv=MC_PUBSUB + ["C20_Retention"],
+                        quick=dict(steps=5, nsess=2), thorough=dict(steps=6, nsess=3), hist=True),
+                gen=[dict(bag="hist", depth=18, quick=220, thorough=3000, hist=True)],
+                classes=["metaapi", "rpcreply", "pubsub"]),
     "C13": dict(family="core",
                 mc=dict(kinds=MC_RPC_KINDS,
                         inv=["C13_AtMostOneInterrupt", "C13_Modes", "C13_TimeoutExact", "C02_NoLateTimer"],
@@ -51,13 +67,7 @@ PROPS = {
 
 
 def matches_known(k, v):
-    sig = k.get("signature", {})
-    if not sig:
-        return False
-    for key, want in sig.items():
-        if v.get("sig", {}).get(key) != want:
-            return False
-    return True
+    return v.get("known") is not None and v["known"].get("deviation") == k.get("deviation")
 
 
 def violation_sig(fail):
@@ -76,8 +86,8 @@ def violation_sig(fail):
 
 def mc_cfg(mc, tier, devs=()):
     b = mc[tier]
-    cfg = "SPECIFICATION MCSpec\nCONSTANTS\n  Deviations = %s\n  MCKinds = %s\n  MaxSteps = %d\n  NSess = %d\n" % (
-        tla_set(devs), tla_set(mc["kinds"]), b["steps"], b["nsess"])
+    cfg = "SPECIFICATION MCSpec\nCONSTANTS\n  Deviations = %s\n  MCKinds = %s\n  MaxSteps = %d\n  NSess = %d\n  MCHist = %s\n" % (
+        tla_set(devs), tla_set(mc["kinds"]), b["steps"], b["nsess"], "TRUE" if mc.get("hist") else "FALSE")
     cfg += "INVARIANTS " + " ".join(mc["inv"]) + "\nCHECK_DEADLOCK FALSE\n"
     return cfg
 
@@ -116,7 +126,8 @@ def corrupt_trace(evs):
 
 
 def run_core(prop, spec, tier, seed, work, replay):
-    devs = [k["deviation"] for k in known_findings(prop) if k.get("status") == "known" and k.get("deviation")]
+    known = [k for k in known_findings(prop) if k.get("status") == "known" and k.get("deviation")]
+    devs = []      # the specification the properties demand: no deviation enabled
     classes = spec["classes"]
     consts = {"Deviations": tla_set(devs), "Classes": tla_set(classes)}
     binary = build_harness(work)
@@ -133,7 +144,7 @@ def run_core(prop, spec, tier, seed, work, replay):
         # leg 2: generate
         scns = []
         for gi, g in enumerate(spec["gen"]):
-            part = gen_scenarios(work, "Gen", {"Deviations": tla_set(devs), "Depth": g["depth"]},
+            part = gen_scenarios(work, "Gen", {"Deviations": tla_set(devs), "Depth": g["depth"], "HistMode": "TRUE" if g.get("hist") else "FALSE"},
                                  g[tier], g["depth"], seed * 7919 + gi, "gen%d" % gi, "%s.%s%d." % (prop, g["bag"], seed),
                                  defs={"KindBag": BAG[g["bag"]]})
             for s in part:
@@ -148,11 +159,23 @@ def run_core(prop, spec, tier, seed, work, replay):
                                c["scn"], next((l for l in c["stderr"].splitlines() if l.startswith("panic:") or l.startswith("fatal error:")), "?"))})
     evs = read_trace(tf)
     ok, nev, fails = validate_all(work, "Trace", "TraceSpec", consts, tf, "val")
+    groups0, _ = split_by_scn(evs)
     for f in fails:
-        violations.append({"kind": "trace-rejected", "scn": f["scn"], "scenario": byid[f["scn"]], "step": f["step"],
-                           "explain": f["explain"], "story": f["story"].split("\n"), "sig": violation_sig(f),
-                           "summary": "scenario %s: the recorded execution is not a behaviour of the specification at step %d (%s)" % (
-                               f["scn"], f["step"], json.dumps(violation_sig(f)))})
+        v = {"kind": "trace-rejected", "scn": f["scn"], "scenario": byid[f["scn"]], "step": f["step"],
+             "explain": f["explain"], "story": f["story"].split("\n"), "sig": violation_sig(f),
+             "summary": "scenario %s: the recorded execution is not a behaviour of the specification at step %d (%s)" % (
+                 f["scn"], f["step"], json.dumps(violation_sig(f)))}
+        # a rejection that one listed deviation of the code explains is a known finding
+        for k in known:
+            fk = work.path("known.ndjson")
+            with open(fk, "w") as fh:
+                for e in groups0[f["scn"]]:
+                    fh.write(json.dumps(e) + "\n")
+            acc, _, _, _ = validate(work, "Trace", "TraceSpec", dict(consts, Deviations=tla_set([k["deviation"]])), fk, "known")
+            if acc:
+                v["known"] = k
+                break
+        violations.append(v)
     if replay:
         return {"violations": violations, "coverage": {}}
     # binding self-test on the first accepted scenarios
